@@ -1002,6 +1002,7 @@ func run(c *vm.Ctx) {
 	}
 	if c.Shard == 0 {
 		checkNameConflicts(c, c.Rand("conflicts"))
+		checkCaseVariantNames(c, c.Rand("casefold"))
 		checkBigValues(c, c.Rand("big"))
 	}
 	if c.Shard == 1%c.NShards {
